@@ -160,12 +160,26 @@ class _Checker:
 def body(ctx: core.Ctx, case: dict):
     from AEIC.trajectories import TrajectoryStore
 
-    ctx.case(case)
     fdefs = case['fdefs']
-    for fd in fdefs:
-        sc.register_fieldset(fd)
     layout = case['layout']
     groups = case['groups']
+    if layout == 'create_assoc':
+        # The mapping function of create_associated() hands over an object whose attributes all exist; a field
+        # "never assigned" does not exist for it, its attribute is None.  The model therefore expects None (not the
+        # field's default) for those values.  (False alarm corrected: DESIGN section 13.)
+        import copy as _copy
+
+        case = _copy.deepcopy(case)
+        for g in groups[1:]:
+            for i in g:
+                nm = sc.fs_name(fdefs[i])
+                for desc in case['trajs']:
+                    desc['extras'][nm] = [
+                        {'unset': 'none'} if v.get('unset') == 'never' else v for v in desc['extras'][nm]
+                    ]
+    ctx.case(case)
+    for fd in fdefs:
+        sc.register_fieldset(fd)
     d = ctx.fresh_dir()
     base = d / 'base.nc'
     assoc_paths = [d / f'assoc{k}.nc' for k in range(1, len(groups))]
